@@ -6,7 +6,7 @@ func init() {
 		"go toolchain, race detector and OS behave as documented",
 	}
 	props["C01"] = propCfg{Level: "exploration", Assume: common,
-		Rule: "cases: every labeled ordered forest up to the tier's node bound over {a,b} x spellings x 6 branch tuples x 3 code paths, plus seeded random forests over all name classes; one evaluation = one real Output call compared byte-wise with the reference renderer; distinct key = hash(forest, spelling, branch tuple, entry point); non-trivial = merged forest has >= 3 nodes and (depth >= 2 or a merged sibling)"}
+		Rule: "cases: every labeled ordered forest up to the tier's node bound over {a,b} x spellings x 8 branch tuples x 3 simple code paths + one massive call per spelling (exact block cover), shape extremes (depth 400, 300 children, 60 roots, names around 4096 bytes), plus seeded random forests over all name classes; one evaluation = one real Output call compared byte-wise with the reference renderer; distinct key = hash(forest, spelling, branch tuple, entry point); non-trivial = merged forest has >= 3 nodes and (depth >= 2 or a merged sibling)"}
 }
 
 func init() {
@@ -41,7 +41,7 @@ func init() {
 func init() {
 	props["C06"] = propCfg{Level: "exploration",
 		Assume: []string{"the process runs as root on a Linux filesystem; symlinks are not part of the workload", "snapshots ignore directory mtimes"},
-		Rule:   "cases: every labeled forest up to the node bound over {a.go,b} with distinct roots x 7 extension lists x target states {empty, missing nested, pre-populated, default via chdir} x {MkdirFromMarkdown, MkdirFromRoot, 2 aliases}; every non-empty subset of roots pre-existing as directory or as file; an over-long name at every node position and a target path through a regular file (OS refusals); plus seeded random forests over extension-bait/Unicode/quoting names; one evaluation = one real Mkdir judged on the jail's after-before snapshot; distinct key = hash(forest, route, ext list, target state | pre-existing mask | refusal position); non-trivial = >= 2 nodes, or any pre-existing / refusal case"}
+		Rule:   "cases: every labeled forest up to the node bound over {a.tar.gz,b} with distinct roots x 10 extension lists (one shared slice per process handed to gtree, pristine copy for the model) x target forms {empty, missing nested, pre-populated, default via chdir, explicit empty string, trailing slash, relative} x stray options x {MkdirFromMarkdown, MkdirFromRoot, 2 aliases}; every non-empty subset of roots pre-existing as directory or as file; an over-long name at every node position and a target path through a regular file (OS refusals); plus seeded random forests over extension-bait/Unicode/quoting names; one evaluation = one real Mkdir judged on the jail's after-before snapshot; distinct key = hash(forest, route, ext list, target state | pre-existing mask | refusal position); non-trivial = >= 2 nodes, or any pre-existing / refusal case"}
 }
 
 func init() {
@@ -59,7 +59,7 @@ func init() {
 func init() {
 	props["C09"] = propCfg{Level: "exploration",
 		Assume: []string{"colour is disabled (fatih/color NoColor=true) so reports are compared as plain text", "the real run's name-rejection is observed on an empty target (only names can reject)"},
-		Rule:   "cases: every labeled forest up to the node bound over {a.go,b} x extension lists, plus seeded random forests (a third with path-hostile names) through Output+dry-run, MkdirFromMarkdown+dry-run, MkdirFromRoot+dry-run (report captured from color.Output), Verify/Walk with a stray dry-run option, x {simple, massive}; one evaluation = one real dry-run call judged on the jail snapshot (must be unchanged), on its report (plain output + per-root counts equal to the model's, which are cross-checked against a real Mkdir's snapshot delta in a second jail) and on accept/reject agreement with the real run; distinct key = hash(forest, entry, mode, ext list, root); non-trivial = >= 2 nodes after merge"}
+		Rule:   "cases: every labeled forest up to the node bound over {a.tar.gz,b} x extension lists, plus seeded random forests (a third with path-hostile names) through Output+dry-run, MkdirFromMarkdown+dry-run, MkdirFromRoot+dry-run (report captured from color.Output), Verify/Walk with a stray dry-run option, x {simple, massive}; one evaluation = one real dry-run call judged on the jail snapshot (must be unchanged), on its report (plain output + per-root counts equal to the model's, which are cross-checked against a real Mkdir's snapshot delta in a second jail) and on accept/reject agreement with the real run; distinct key = hash(forest, entry, mode, ext list, root); non-trivial = >= 2 nodes after merge"}
 }
 
 func init() {
@@ -77,7 +77,7 @@ func init() {
 func init() {
 	props["C14"] = propCfg{Level: "fault_enumeration",
 		Assume: []string{"a failing io.Reader keeps failing; a failing io.Writer keeps failing after its first failure", "heading-root documents are not run in massive mode here (known finding of C10)"},
-		Rule:   "fault enumeration: for each document of a seeded corpus (48 quick / 1600 thorough, <= ~300 bytes) the reader fails with a sentinel after EVERY byte offset 0..len (7 From-Markdown entry points x simple/massive; filesystem entry points at a quarter of the offsets) and the writer fails at EVERY write index of the fault-free run, as plain error and as short write (text, custom branch, JSON, YAML, TOML, dry-run, non-iterator x From-Markdown/From-Root x simple/massive); one evaluation = one real call with one injected fault; distinct key = hash(document, entry/mode, fault kind, fault index); every case is non-trivial (a fault is injected; 'failed_writes'/'reader Failed' are measured, a fault that never took effect is inconclusive)"}
+		Rule:   "fault enumeration: for each document of a seeded corpus (48 quick / 1600 thorough, <= ~300 bytes) the reader fails with a sentinel after EVERY byte offset 0..len (7 From-Markdown entry points x simple/massive; filesystem entry points at a quarter of the offsets) and the writer fails at EVERY write index of the fault-free run, as persistent error, as short write and as transient failure of that one write (text, custom branch, JSON, YAML, TOML, dry-run, non-iterator x From-Markdown/From-Root x simple/massive); one evaluation = one real call with one injected fault; distinct key = hash(document, entry/mode, fault kind, fault index); every case is non-trivial (a fault is injected; 'failed_writes'/'reader Failed' are measured, a fault that never took effect is inconclusive)"}
 }
 
 func init() {
